@@ -215,7 +215,7 @@ def reject_cases():
         yield {'k': 'reject', 'what': 'tdea-block', 'n': bl}
     for kl in (9, 12, 15, 17, 20, 23, 25, 32):
         yield {'k': 'reject', 'what': 'tdea-key-string', 'n': kl}
-    for form in ('k1-short', 'k2-short', 'k3-long', 'string+k2', 'k1,None,k3-short'):
+    for form in ('k1-short', 'k2-short', 'k3-long', 'string+k2', 'k1,None,k3-short', 'k2-empty', 'k3-empty', 'k2-empty,k3', 'k1-empty', 'k1,None,k3-empty'):
         yield {'k': 'reject', 'what': 'tdea-mixed', 'form': form}
     for kl in (33, 34, 40, 64):
         yield {'k': 'reject', 'what': 'serpent-key', 'n': kl}
@@ -270,6 +270,20 @@ def run(case, ctx, rng):
             obj.K.ival = Bits(K4, 64).ival                       # ... and refilled in place
             ctx.eq('rekeyed:enc==standard', call(obj.enc, B), ref(c, K4, T, B, False), K=K4, B=B, how='K refilled in place')
             ctx.eq('rekeyed:dec==standard', call(obj.dec, B), ref(c, K4, T, B, True), K=K4, B=B, how='K refilled in place')
+        if c in ('aes128', 'aes192', 'aes256', 'serpent') and kbits is None and case['kp'] in ('rand', 'walk', 'ones'):
+            # the key given as a Bits object the caller keeps: changed before the first use, and refilled to build a second cipher
+            from crysp.bits import Bits
+            kb = Bits(K, bitorder=1)
+            mk = (lambda: __import__('crysp.aes', fromlist=['AES']).AES(kb)) if c.startswith('aes') else (lambda: __import__('crysp.serpent', fromlist=['Serpent']).Serpent(kb))
+            o1 = call(mk)
+            K2 = rng.randbytes(len(K))
+            kb.ival = Bits(K2, bitorder=1).ival                 # the buffer now holds another key
+            o2 = call(mk)
+            kb.ival = 0
+            if not is_exc(o1) and not is_exc(o2):
+                ctx.eq('enc/dec==standard', call(o1.enc, B), ref(c, K, T, B, False), K=K, B=B, key_object='changed by the caller before the first use')
+                ctx.eq('enc/dec==standard', call(o2.enc, B), ref(c, K2, T, B, False), K=K2, B=B, key_object='one buffer refilled for a second cipher')
+                ctx.eq('enc/dec==standard', call(o1.dec, B), ref(c, K, T, B, True), K=K, B=B, key_object='changed by the caller before the first use')
         if case['kp'] == 'parity':
             # keys differing only in the (ignored) parity bits compute the same function
             K2 = bytes(b ^ 1 if (case['j'] >> (i % 6)) & 1 else b for i, b in enumerate(K))
@@ -366,6 +380,11 @@ def run_reject(case, ctx, rng):
         if f == 'k3-long': expect_refusal(lambda: TDEA(R(8), R(8), R(9)).enc(R(8)), form=f)
         if f == 'string+k2': expect_refusal(lambda: TDEA(R(16), R(8)).enc(R(8)), form=f)
         if f == 'k1,None,k3-short': expect_refusal(lambda: TDEA(R(8), None, R(3)).enc(R(8)), form=f)
+        if f == 'k2-empty': expect_refusal(lambda: TDEA(R(8), b'').enc(R(8)), form=f)
+        if f == 'k3-empty': expect_refusal(lambda: TDEA(R(8), R(8), b'').enc(R(8)), form=f)
+        if f == 'k2-empty,k3': expect_refusal(lambda: TDEA(R(8), b'', R(8)).enc(R(8)), form=f)
+        if f == 'k1-empty': expect_refusal(lambda: TDEA(b'').enc(R(8)), form=f)
+        if f == 'k1,None,k3-empty': expect_refusal(lambda: TDEA(R(8), None, b'').enc(R(8)), form=f)
     elif w == 'serpent-key': expect_refusal(lambda: Serpent(R(n)).enc(R(16)))
     elif w == 'serpent-block':
         K = R(16); B = R(n)
